@@ -89,6 +89,17 @@ fn judge(case: &c13::Case, run: &c13::Run, ctx: &mut CaseCtx) {
         }
     }
 
+    // refresh marks that passed while only a cache-only browse was open are made up for when a
+    // querying browse takes over (one mark per loop iteration, i.e. within a few ms of that call)
+    let late_refresh = |t: u64, pos: usize| -> bool {
+        run.browse_chans.iter().any(|c| matches!(c.kind, ChanKind::Browse { cache_only: true, .. }) && c.opened < pos)
+            && run.browse_chans.iter().any(|c| {
+                matches!(c.kind, ChanKind::Browse { cache_only: false, .. }) && {
+                    let to = time_at(c.opened);
+                    t >= to && t <= to + 3
+                }
+            })
+    };
     let mut long_search = false;
     let mut reissued = false;
     let mut total_scheduled = 0u64;
@@ -153,6 +164,12 @@ fn judge(case: &c13::Case, run: &c13::Run, ctx: &mut CaseCtx) {
                 }
                 for (_, rt, ttl) in latest {
                     if marks(rt, ttl, true).contains(t) {
+                        ok = true;
+                    }
+                    // marks that passed while only a cache-only browse held the type are made up
+                    // for, one per loop iteration, when a querying browse takes over
+                    let ttl_ms = ttl.max(1) as u64 * 1000;
+                    if late_refresh(*t, *pos) && *t >= rt + ttl_ms / 100 * 80 && *t < rt + ttl_ms {
                         ok = true;
                     }
                 }
@@ -267,6 +284,9 @@ fn judge(case: &c13::Case, run: &c13::Run, ctx: &mut CaseCtx) {
         if latest.iter().any(|(r, rt)| type_ok(r) && marks(*rt, r.ttl, true).contains(t)) {
             continue;
         }
+        if late_refresh(*t, *pos) && latest.iter().any(|(r, rt)| type_ok(r) && *t >= rt + r.ttl.max(1) as u64 * 800 && *t < rt + r.ttl.max(1) as u64 * 1000) {
+            continue;
+        }
         // follow-up window: within 1500 ms after a record naming it (PTR target / SRV target / owner) arrived,
         // or after the instance was (re)reported found
         let named_at: Vec<u64> = rx
@@ -379,6 +399,7 @@ pub fn strategy() -> BoxedStrategy<c13::Case> {
     let op = prop_oneof![
         5 => (0usize..3).prop_map(|ty| Op::Browse { ty }),
         2 => (0usize..3).prop_map(|ty| Op::StopBrowse { ty }),
+        1 => (0usize..3).prop_map(|ty| Op::BrowseCache { ty }),
         3 => (0usize..3, 0u8..4, proptest::option::weighted(0.3, prop_oneof![Just(500u64), Just(5000), 1u64..400_000])).prop_map(|(host, case_var, timeout_ms)| Op::Resolve { host, case_var, timeout_ms }),
         1 => (0usize..3, 0u8..4).prop_map(|(host, case_var)| Op::StopResolve { host, case_var }),
         3 => (0usize..3, 0usize..3, prop_oneof![Just(120u32), Just(4500), Just(10), 2u32..5000]).prop_map(|(ty, inst, ttl)| Op::Announce { ty, inst, ttl, part: 0 }),
